@@ -308,7 +308,11 @@ func (f *filler) fill(v reflect.Value, top bool) {
 	case reflect.Bool:
 		v.SetBool(f.uintFor(8)&1 == 1)
 	case reflect.String:
-		v.SetString(string(f.nulFree(1 + f.length())))
+		if f.mode == ModeRandom && f.rng.IntN(6) == 0 {
+			v.SetString("") // an empty string is a string too (e.g. an empty dialect name)
+		} else {
+			v.SetString(string(f.nulFree(1 + f.length())))
+		}
 	case reflect.Array:
 		for i := 0; i < v.Len(); i++ {
 			f.fill(v.Index(i), false)
